@@ -110,7 +110,8 @@ def check_protocol(ck, R):
                   "stores a child of this partition meanwhile, the object passes for serialised with a partial index and the child loses the "
                   "missing keys" % (a, A.short(later[0], 50)), fa.where(s_))
     # the merged index is a fresh mapping, never an alias of a parent's live index
-    idx_defs = [s_ for s_ in fa.stmts(ast.Assign) if any(isinstance(t, ast.Name) and ser and t.id == A.norm(ser[0].args[0]) for t in s_.targets)]
+    idx_defs = [s_ for s_ in fa.stmts() if isinstance(s_, (ast.Assign, ast.AnnAssign)) and getattr(s_, "value", None) is not None and any(
+        isinstance(t, ast.Name) and ser and t.id == A.norm(ser[0].args[0]) for t in (s_.targets if isinstance(s_, ast.Assign) else [s_.target]))]
     okfresh = bool(idx_defs) and all(A.norm(s_.value) in ("dict()", "{}") for s_ in idx_defs)
     ck.ob(R, fa.key(None, "index-is-fresh"), okfresh, "the merged index starts as a fresh dict" if okfresh else
           "the merged index is not a fresh dict (%s): building it in place mutates the parent partition object that the cache keeps serving"
